@@ -466,7 +466,9 @@ fn run_pipeline(m: Materialised) -> PipeResult {
 }
 
 fn budget(len: usize) -> Duration {
-    Duration::from_millis(5000 + len as u64)
+    // VERIF_BUDGET_MS overrides the base (self-test of the `hang` path: 0 makes every case time out)
+    let base = std::env::var("VERIF_BUDGET_MS").ok().and_then(|s| s.parse::<u64>().ok()).unwrap_or(5000);
+    Duration::from_millis(base + if base == 0 { 0 } else { len as u64 })
 }
 
 /// run the case on a worker thread under the wall-clock budget
@@ -536,10 +538,10 @@ impl Engine for Process {
         "process"
     }
     fn rule(&self) -> String {
-        "pipeline cases: (minidump bytes, per-module symbol bytes) pairs = minidump-synth dumps for 10 CPU kinds (x86 amd64 arm arm64 arm64-old mips mips64 ppc ppc64 sparc) x 5 OSes (threads with 16..4096-byte stacks seeded with return addresses and frame links, also at the top of the address space; modules; exception with own context and crashing amd64 code; memory-info list or Linux maps with regions up to 2^64-1; /proc limits with short/blank lines, lsb-release, cpuinfo, status, environ; misc info, handles, unloaded modules, crashpad/breakpad/mac streams, thread names), byte-mutated copies of them and of 7 repo dumps, symbol files from a grammar (MODULE/FILE/FUNC+lines/INLINE/PUBLIC/STACK CFI incl. rules that never touch memory/STACK WIN with extreme sizes) plus byte corruption, options 0..3 (stable_basic, stable_all, unstable_all, unstable_all+stat reporter+evil json); each run under catch_unwind and a 5 s + 1 ms/byte budget; frames per thread compared with stack bytes + 2; print, print_brief, print_json(false/true) rendered, JSON re-parsed. kernel cases: /proc limits text, guard-page region lists, STACK WIN FPO records, push/call with small rsp, printer arithmetic against the Lean model. non-trivial = the dump was readable and processing returned a ProcessState that was rendered (pipeline) / the kernel produced a non-empty answer (kernel); distinct = distinct case line".into()
+        "pipeline cases: (minidump bytes, per-module symbol bytes) pairs = minidump-synth dumps for 10 CPU kinds (x86 amd64 arm arm64 arm64-old mips mips64 ppc ppc64 sparc) x 5 OSes (threads with 16..4096-byte stacks seeded with return addresses and frame links, also at the top of the address space; modules; exception with own context and crashing amd64 code; memory-info list or Linux maps with regions up to 2^64-1; /proc limits with short/blank lines, lsb-release, cpuinfo, status, environ; misc info, handles, unloaded modules, crashpad/breakpad/mac streams, thread names), byte-mutated copies of them and of 7 repo dumps, symbol files from a grammar (MODULE/FILE/FUNC+lines/INLINE/PUBLIC/STACK CFI incl. rules that never touch memory/STACK WIN with extreme sizes) plus byte corruption, options 0..3 (stable_basic, stable_all, unstable_all, unstable_all+stat reporter+evil json); each run under catch_unwind and a 5 s + 1 ms/byte budget; frames per thread compared with stack bytes + 2; print, print_brief, print_json(false/true) rendered, JSON re-parsed. the kernel inputs of every processed state (limits text, by_addr regions and the region at each accessed address, module lists and frames) go to the Lean model and its answers are compared with the state / JSON / text report. kernel cases: /proc limits text (limitscase), guard-page region lists incl. ends at 2^64-1 (guardcase), push/call/pop/ret with rsp 0..16 and boundaries (pushcase), STACK WIN FPO records with u32 extremes (fpo) against the model; oracle-only sweep of crashing amd64 instructions (opscan: every opcode of the one-byte and 0F maps x 128 ModRM/SIB forms x prefixes; op: guided and random bytes). non-trivial = the dump was readable and processing returned a ProcessState that was rendered (pipeline) / the kernel produced a non-empty answer (kernel); distinct = distinct case line".into()
     }
     fn exhaustive_part(&self) -> Option<String> {
-        Some("every (CPU kind, OS, option set) combination = 10 x 5 x 4 is generated at least once per run".into())
+        Some("every (CPU kind, OS, option set) combination = 10 x 5 x 4 is generated at least twice per run; pushcase: all rsp in 0..=16 x {push, call, pop, ret}; opscan: all 256 opcodes of the one-byte and 0F maps (no prefix; REX.W: every second opcode in the quick tier, all in thorough) x 128 ModRM forms".into())
     }
 
     fn generate(&self, tier: Tier, rng: &mut Rng, emit: &mut dyn FnMut(String)) {
